@@ -835,6 +835,9 @@ def _execute_locked(case: Dict[str, Any]) -> Dict[str, Any]:
             fixed_at = next((k for k in range(len(texts) - 1) if texts[k] == texts[k + 1]), None)
             stats.inc(f"chains.fixed_after_{fixed_at if fixed_at is not None else 'never'}")
             key = C.sha(first["x"], first.get("safe", False), first.get("keep_imports", False))[:12]
+            if re.fullmatch(r"import \w+\n(if \w+\.\w+:\n    import \w+\n)+", first["x"]) and not first.get("keep_imports"):
+                # known finding K7: a chain of imports that guard each other is taken apart one level per application
+                key = "import-chain-peels-one-level-per-application"
             if len(texts) >= 7 and texts[5] != texts[6]:
                 violations.append({"class": "C09-no-fixed-point-within-five-applications", "finding_key": "e2:noconv:" + key,
                                    "detail": f"f^5(x) != f^6(x) for the input of op #{chain[0]} (options safe={first.get('safe', False)}, keep_imports={first.get('keep_imports', False)})"})
